@@ -81,12 +81,12 @@ type Field struct {
 	Style int   `json:"style,omitempty"`
 	Type  *Type `json:"type"`
 	// entity key markers
-	Primary bool   `json:"primary,omitempty"`
+	Primary bool `json:"primary,omitempty"`
 	// PrimaryFalse: `primary = false` written out (allowed "to self-document")
-	PrimaryFalse bool `json:"primary_false,omitempty"`
-	Foreign string `json:"foreign,omitempty"` // "pkg.Entity"
-	Tenant  string `json:"tenant,omitempty"`
-	Shard   bool   `json:"shard,omitempty"`
+	PrimaryFalse bool   `json:"primary_false,omitempty"`
+	Foreign      string `json:"foreign,omitempty"` // "pkg.Entity"
+	Tenant       string `json:"tenant,omitempty"`
+	Shard        bool   `json:"shard,omitempty"`
 }
 
 type Ref struct {
